@@ -165,7 +165,21 @@ func genC08(rc *RunCtx) (*C1, bool) {
 		sc.Chunks = nil
 		sc.Endless = t.Choose(3) == 0 // the flood never ends: the client has to stop reading by itself
 		off := 0
-		if keep == 0 && t.Chance(1, 12) {
+		if keep > 0 && sc.Kind == KTCP && !sc.IsExc && sc.Req.FC >= 1 && sc.Req.FC <= 4 && len(full) >= 10 && t.Chance(1, 10) {
+			// the eight genuine bytes up to the function code, then a flood whose first byte reads as a byte count that fits the
+			// end of the next read: a frame that contradicts the length its own header announces
+			b := int(full[8]) + 1 + t.Choose(20)
+			if b <= 250 {
+				buf[8] = byte(b)
+				for i := 9; i < total; i++ {
+					buf[i] = junk[i%8] ^ byte(i) ^ 0x33
+				}
+				sc.Chunks = append(sc.Chunks, Chunk{N: 8, Gap: gapOf(t)}, Chunk{N: 1 + b, Gap: gapOf(t)})
+				off = 9 + b
+				rc.Probe("flood_after_eight_genuine_bytes_fits_a_byte_count")
+			}
+		}
+		if off == 0 && keep == 0 && t.Chance(1, 12) {
 			// the flood begins with something that is a well-formed frame - of another function, from somebody else's
 			// conversation (other transaction id / unit id): nothing a client may take for the reply to this request
 			other := []byte{1, 2, 3, 4}[t.Choose(4)]
@@ -194,7 +208,7 @@ func genC08(rc *RunCtx) (*C1, bool) {
 				rc.Probe("flood_starts_with_a_frame_of_another_conversation")
 			}
 		}
-		if keep > 0 && t.Choose(3) == 0 {
+		if off == 0 && keep > 0 && t.Choose(3) == 0 {
 			// the first k bytes of the valid reply arrive on their own (k may cover a whole header), then the flood
 			h := 1 + t.Choose(min(keep, 14))
 			if t.Choose(2) == 0 {
@@ -393,6 +407,9 @@ func checkC08(rc *RunCtx, sc *C1, out *C1Outcome) {
 		} else if !frameAnswersRequest(sc, out.Consumed) {
 			// what was accepted does not even carry the request's transaction id / unit id / function code
 			related = "|frame_unrelated_to_request"
+		} else if sc.Kind == KTCP && len(out.Consumed) >= 6 && int(out.Consumed[4])<<8|int(out.Consumed[5]) != len(out.Consumed)-6 {
+			// the accepted frame contradicts its own MBAP length field
+			related = "|mbap_length_ignored"
 		}
 		rc.Violate("success_under_fault", fmt.Sprintf("client=%s|fault=%s|resp=%T%s", sc.Kind, sc.Fault, out.Resp, related), "Do reported success (%T) to a request of fc %d although the transport %s; consumed %d bytes: %x", out.Resp, sc.Req.FC, sc.Fault, len(out.Consumed), trunc(out.Consumed, 40))
 		return
